@@ -149,9 +149,10 @@ class Array(Dom):
 class HeapCompiler(Dom):
     """`self` of an ExcelCompiler method in heap mode: cell_map and dep_graph are abstract (A-NX)"""
 
-    def __init__(self, cycles=False, building=False):
+    def __init__(self, cycles=False, building=False, evaluating=None):
         self.cycles = cycles
         self.building = building     # graph construction: cell_map membership, graph_todos and edges are mutable heap state
+        self.evaluating = evaluating   # evaluation: list of frame clauses that hold across nested evaluations (self.eval)
 
 
 class HeapCell(Dom):
